@@ -40,7 +40,9 @@ Allowed(c) ==
       [] OTHER -> {"ok", "err"}
 
 \* memory bound: a * (input + output) + b
-AllocBound(inLen, outLen) == 12 * (inLen + outLen) + 16777216
+\* the constant covers format-intrinsic contexts (brotli window up to 16 MiB, zstd window up to 128 MiB);
+\* attacker-chosen sizes (2^32 .. 2^64 elements or bytes) are orders of magnitude beyond it
+AllocBound(inLen, outLen) == 12 * (inLen + outLen) + 167772160
 
 VARIABLE case
 DInit == case \in Cases
